@@ -2,10 +2,10 @@
 (loader.ReadMetadata / loader.CSVtoNumpyMulti / write client, driven exactly like session.load) and, for the chunk
 size session.load hard-wires, into the real `connect` command loop (session.Client.Read -> \\load)."""
 PROPS = ["C33"]
-READY = False
+READY = True
 CLAIMS = {
  "C33": dict(technique="TLA+ invariant (LoadedAllOrError on an implementation-shaped model of the chunked CSV read loop: reader cursor, FieldsPerRecord, chunk size, per-chunk conversion and write, 'reader error => end of file') checked by TLC; every TLC-enumerated file x chunk size x header option replayed into the real loader and the real `connect` \\load command",
-             text="TLC enumerates every file of up to 5 rows (quick: 4) over the row classes {ok, too few fields, too many fields, not CSV (bare quote), unparsable value at the first / an inner / the last column, unparsable timestamp} x chunk sizes {1,2,3,100} x header option and checks on the model of the loop as coded (pure variant) that a finished load has either reported an error or written every row. Each case is emitted with the property's answer and the answer of the unchanged tree (named deviation CsvErrorIsEOF), written by Python as a CSV file plus loader control file (6 time formats incl. epoch timestamps and fractional seconds, 6 time zones, 6 bucket schemas over all ten numeric column types, fixed and variable-length buckets, header renaming / case / blanks, CRLF, quoting, missing final newline) and loaded by the real code into a real instance; the reported error, every dataset handed to the write client and the queried bucket content are compared with the file.",
+             text="TLC enumerates every file of up to 5 rows (quick: 4 rows, without the inner-column class) over the row classes {ok, too few fields, too many fields, not CSV (bare quote), unparsable value at the first / an inner / the last column, unparsable timestamp} x chunk sizes {1,2,3,100} x header option and checks on the model of the loop as coded (pure variant) that a finished load has either reported an error or written every row. Each case is emitted with the property's answer and the answer of the unchanged tree (named deviation CsvErrorIsEOF), written by Python as a CSV file plus loader control file (8 time layouts incl. epoch timestamps, 12-hour clock, month names and fractional seconds, 6 time zones, 6 bucket schemas over all ten numeric column types, fixed and variable-length buckets, header renaming / case / blanks, CRLF, quoting, missing final newline) and loaded by the real code into a real instance; the reported error, every dataset handed to the write client and the queried bucket content are compared with the file.",
              note="Trusted: TLC, the Python concretisation (zoneinfo for local time -> epoch, per-type value pools), encoding/csv as modelled by its FieldsPerRecord rule. session.load itself is unexported and hard-wires chunkSize=1000000: the chunk sizes 1,2,3,100 go through a Go op that replicates ONLY its outer loop around the same exported functions; a sample of the cases with the largest chunk size also goes through the real session.Client.Read command loop (real load, real local API client) in a child process. A process crash (Go panic with stack trace) is counted as a reported failure, not as a silent drop. CSV layout is Epoch first (any other position makes every load fail with an error); string (U16) columns are not covered."),
 }
 import concurrent.futures, datetime, json, os, random, re, shutil, struct, subprocess, sys, time
@@ -251,8 +251,14 @@ def judge(case, conc, report, chunks, stored, detail):
     allrows = list(range(1, n + 1))
     garbage = [x for x in stored if isinstance(x, str)] + [x for c in chunks for x in c if isinstance(x, str)]
     got = sorted(x for x in stored if isinstance(x, int))
-    exact = (report == case["known"]["report"] and chunks == case["known"]["chunks"]
-             and got == sorted(x for c in case["known"]["chunks"] for x in c))
+    def same(m):
+        return report == m["report"] and chunks == m["chunks"] and got == sorted(x for c in m["chunks"] for x in c)
+    # exactly what the model of the unchanged tree predicts / what the pure model predicts (panic and error are both
+    # "reported" there) / neither: informative only, never a verdict
+    pure = dict(case["expect"])
+    if report != "none" and pure["report"] != "none":
+        pure["report"] = report
+    exact = "exact" if same(case["known"]) else ("exact_pure" if same(pure) else "inexact")
     if report != "none":
         return "ok", "", exact
     if case["silentok"] and not garbage and got == allrows and len(stored) == n:
@@ -402,14 +408,14 @@ def run(prop, tier):
             return self[n]
     concs = Concs()
 
-    tally = dict(ok=0, known=0, violation=0, exact=0, inexact=0, reported_error=0, reported_panic=0, loaded_all=0)
+    tally = dict(ok=0, known=0, violation=0, exact=0, exact_pure=0, inexact=0, reported_error=0, reported_panic=0, loaded_all=0)
     formats, zones, types, hvariants = set(), set(), set(), set()
 
     def account(n, path, report, chunks, stored, detail, extra):
         c, conc = cases[n], concs[n]
         verdict, text, exact = judge(c, conc, report, chunks, stored, detail)
         tally[verdict] += 1
-        tally["exact" if exact else "inexact"] += 1
+        tally[exact] += 1
         if report == "error":
             tally["reported_error"] += 1
         elif report == "panic":
@@ -419,7 +425,7 @@ def run(prop, tier):
         res.cov["traces_validated_against_impl"] += 1
         formats.add(conc["layout"]); zones.add(conc["zone"]); hvariants.add(conc["header_variant"])
         types.update(t for _, t in conc["schema"]["cols"])
-        if not exact:
+        if exact == "inexact":
             res.cov.setdefault("conforming_but_unlike_model", [])
             if len(res.cov["conforming_but_unlike_model"]) < 5 and verdict == "ok":
                 res.cov["conforming_but_unlike_model"].append({"path": path, "file": c["file"], "chunk": c["chunk"], "header": c["header"],
